@@ -52,14 +52,14 @@ def generate(rng, tier):
     quick = tier == "quick"
     out = []
     # every gate type at every fan-in
-    for rep in range(1 if quick else 6):
+    for rep in range(1 if quick else 4):
         for t in lib.GATES:
             for k in ([1] if t in lib.SINGLE else [1, 2, 3, 4, 5]):
                 d = U.gate_probe(rng, t, k)
                 out.append({"fn": "cnf", "circuit": d, "tags": ["probe"]})
                 a, ak = gen_assumptions(rng, d)
                 out.append({"fn": "solve", "circuit": d, "assume": a, "akind": ak, "tags": ["probe"]})
-    n = 110 if quick else 1500
+    n = 110 if quick else 600
     for i in range(n):
         d, tags = U.gen_circuit(rng, big=(i % 5 == 4))
         out.append({"fn": "cnf", "circuit": d, "tags": tags})
